@@ -152,8 +152,74 @@ pub fn to_witness_node(node: &ConstructNode, values: WitnessValues) -> Arc<Witne
         inference_context: types::Context::new(),
         values,
     };
-    node.convert::<InternalSharing, _, _>(&mut populator)
-        .unwrap()
+    let populated = node
+        .convert::<InternalSharing, _, _>(&mut populator)
+        .unwrap();
+    prune_witness_values(&populated)
+}
+
+/// Shrink each witness value to the type that was inferred for its witness node.
+///
+/// The type of a witness node is inferred from the way the node is used inside the program.
+/// A witness that is never (or only partially) inspected has a smaller type than its value:
+/// unused parts of the type are the unit type. Simplicity requires that each witness value
+/// is exactly of the type of its node, so the unused parts of the value are replaced by unit.
+fn prune_witness_values<J: Jet>(node: &WitnessNode<J>) -> Arc<WitnessNode<J>> {
+    struct Pruner {
+        inference_context: types::Context,
+    }
+
+    impl<J: Jet> Converter<node::Construct<J>, node::Construct<J>> for Pruner {
+        type Error = ();
+
+        fn convert_witness(
+            &mut self,
+            data: &PostOrderIterItem<&WitnessNode<J>>,
+            witness: &Option<simplicity::Value>,
+        ) -> Result<Option<simplicity::Value>, Self::Error> {
+            let pruned = witness.as_ref().map(|value| {
+                data.node
+                    .arrow()
+                    .target
+                    .finalize()
+                    .ok()
+                    .and_then(|ty| value.prune(&ty))
+                    .unwrap_or_else(|| value.shallow_clone())
+            });
+            Ok(pruned)
+        }
+
+        fn convert_disconnect(
+            &mut self,
+            _: &PostOrderIterItem<&WitnessNode<J>>,
+            _: Option<&Arc<WitnessNode<J>>>,
+            _: &Option<Arc<WitnessNode<J>>>,
+        ) -> Result<Option<Arc<WitnessNode<J>>>, Self::Error> {
+            Ok(None)
+        }
+
+        fn convert_data(
+            &mut self,
+            _: &PostOrderIterItem<&WitnessNode<J>>,
+            inner: Inner<
+                &Arc<WitnessNode<J>>,
+                J,
+                &Option<Arc<WitnessNode<J>>>,
+                &Option<simplicity::Value>,
+            >,
+        ) -> Result<WitnessData<J>, Self::Error> {
+            let inner = inner
+                .map(Arc::as_ref)
+                .map(WitnessNode::<J>::cached_data)
+                .map_witness(Option::<simplicity::Value>::clone);
+            Ok(WitnessData::from_inner(&self.inference_context, inner).unwrap())
+        }
+    }
+
+    let mut pruner = Pruner {
+        inference_context: types::Context::new(),
+    };
+    node.convert::<InternalSharing, _, _>(&mut pruner).unwrap()
 }
 
 /// Copy of [`node::ConstructData`] with an implementation of [`WitnessConstructible<WitnessName>`].
